@@ -5,6 +5,7 @@ import shutil
 import uuid
 
 from .. import boot, cborlite as cb, ihex, sut
+from .. import hexcheck
 from ..run import Acc, Violation, run_given
 from . import c07
 
@@ -21,8 +22,11 @@ RULE = (
 )
 ASSUMPTIONS = ["uuid.uuid5, vf/cborlite.py, vf/ihex.py, slot tables of C07", "Kconfig string values contain no quote, backslash or newline"]
 
-VENDORS = ["nordicsemi.com", "ACME Corp.", "acme corp.", "Example.COM", "", " lead", "trail ", "zażółć.pl", "ünï", "v" * 300, "a=b", "x#y"]
-CLASSES = ["nRF54H20_sample_app", "App", "app", "", "Class With Spaces", "ключ", "c" * 300, "0x10", "y", "123"]
+VENDORS = ["nordicsemi.com", "ACME Corp.", "acme corp.", "Example.COM", "", " lead", "trail ", "zażółć.pl", "ünï", "v" * 300, "a=b", "x#y",
+           # characters that are part of a line for a text file reader but line boundaries for str.splitlines(); separators; escapes
+           "acme\x0ccorp", "a\x0bb", "fs\x1cgs\x1drs\x1e", "nel\u0085x", "ls\u2028ps\u2029", "tab\there", "acme/dev", "a:b|c,d;e", "R&D <lab> 'x'", "100%", "$HOME", "{{x}}", "back\\slash"]
+CLASSES = ["nRF54H20_sample_app", "App", "app", "", "Class With Spaces", "ключ", "c" * 300, "0x10", "y", "123",
+           "form\x0cfeed", "u\u2028v", "n\u0085", "dev/board", "R&D_board_app", "O'Neill_radio", "a<b>c", "{{ y }}", "tab\tx", "50%"]
 
 
 def minimal(vendor, cls, seq=1):
@@ -68,7 +72,7 @@ def judge(case, acc, ctx):
         mpi = os.path.join(d, "mpi.hex")
         cmd_mpi.main(mpi="generate", output_file=mpi, vendor_name=vendor, class_name=cls, address=0x1000, size=48, downgrade_prevention_enabled=False,
                      independent_updates=False, signature_verification=None, file=None)
-        segs = ihex.segments(ihex.read(mpi))
+        segs = ihex.segments(hexcheck.read(mpi, "MPI file"))
         rec = segs[0][1] if len(segs) == 1 else b""
         if rec[16:32] != vid:
             problems.append(f"MPI vendor UUID {rec[16:32].hex()} != {vid.hex()}")
@@ -122,7 +126,7 @@ def judge(case, acc, ctx):
                 if written != want:
                     problems.append(f"pair assigned to {role}: files {written}, expected {want}")
                 else:
-                    mem = ihex.read(os.path.join(out, want[0]))
+                    mem = hexcheck.read(os.path.join(out, want[0]), "storage image")
                     lo = min(mem)
                     if lo != 0x0E1ED000 + off or len(mem) != size:
                         problems.append(f"pair assigned to {role}: data at {lo:#x} (+{len(mem)}), expected slot at {0x0E1ED000 + off:#x} (+{size})")
@@ -148,7 +152,22 @@ def case_s():
             nroles = draw(st.integers(1, 4))
             roles = draw(st.lists(st.sampled_from(c07.ROLES), min_size=nroles, max_size=nroles, unique=True))
             for i, r in enumerate(roles):
-                kind = draw(st.sampled_from(["this", "other", "other", "default-same", "default-moved", "near-miss", "near-miss-class"]))
+                kind = draw(st.sampled_from(["this", "other", "other", "default-same", "default-moved", "near-miss", "near-miss-class", "boundary-shift"]))
+                if kind == "boundary-shift" and i + 1 < len(roles) and not any(x[1] == [v, c] for x in config):
+                    # two DIFFERENT pairs whose vendor and class, joined with a separator (or nothing), spell the same string
+                    sep = draw(st.sampled_from(["/", "/", ":", " ", ".", "|", ",", "", "_", "-", "\t", "::"]))
+                    a, b, cc = draw(st.sampled_from(["acme", "n.example", "V"])), draw(st.sampled_from(["dev", "x1", "B"])), draw(st.sampled_from(["board", "app", "C"]))
+                    first, second = [a + sep + b, cc], [a, b + sep + cc]
+                    if draw(st.booleans()):
+                        first, second = second, first
+                    v, c = first  # the pair under test is the one assigned first
+                    config.append([r, first])
+                    config.append([roles[i + 1], second])
+                    continue
+                if len(config) > i:
+                    continue  # this role was taken by the second half of a boundary-shift couple
+                if kind == "boundary-shift":
+                    kind = "other"
                 if kind == "this":
                     pair = [v, c]
                 elif kind == "other":
